@@ -56,7 +56,8 @@ func LoadProgram(repo, tier string, env []string, overlay map[string][]byte) *Pr
 		Mode:    packages.LoadAllSyntax,
 		Dir:     repo,
 		Tests:   false,
-		Env:     append(append(os.Environ(), "GOFLAGS=-mod=mod", "GOPROXY=off", "GOSUMDB=off", "GOWORK=off"), env...),
+		Env: append(append(os.Environ(), "GOFLAGS=-mod=mod", "GOPROXY=off", "GOSUMDB=off", "GOWORK=off", "GOTOOLCHAIN=local",
+			"PATH=/opt/veriftools/go1.26.8/bin:"+os.Getenv("PATH")), env...),
 		Overlay: overlay,
 	}
 	pkgs, err := packages.Load(cfg, rootPatterns...)
